@@ -85,6 +85,55 @@ Proof.
   rewrite (slice_from_prefix' dd t' dl) by (symmetry; exact Ldd). reflexivity.
 Qed.
 
+Lemma read_dfl_exact d dest rem : wf d -> read_destination_from_leaseset d = Ok (dest, rem) ->
+  exists db, d = db ++ rem /\ read_destination db = Ok (dest, []).
+Proof.
+  intros W H. revert H. unfold read_destination_from_leaseset at 1.
+  destruct (length d <? 387)%nat eqn:E; [discriminate|]. apply Nat.ltb_ge in E.
+  rewrite slice_from_ok by lia. cbn [rbind].
+  destruct (read_certificate (skipn 384 d)) as [[c rc]| |] eqn:RC; cbn [rbind fst snd]; try discriminate.
+  destruct (cert_type c) as [t| |] eqn:CT; cbn [rbind]; try discriminate.
+  destruct (cert_length_field c) as [cl| |] eqn:LF; cbn [rbind]; try discriminate.
+  pose proof (cert_length_field_eq _ _ LF) as Ecl.
+  destruct (read_certificate_shape _ _ _ (wf_skipn 384 _ W) RC) as [L3 [Ec [B Erc]]].
+  rewrite skipn_length in B, L3.
+  set (dl := Z.to_nat (384 + 3 + cl)) in *.
+  destruct (length d <? dl)%nat eqn:E2; [discriminate|]. apply Nat.ltb_ge in E2.
+  rewrite slice_to_ok by lia. cbn [rbind].
+  set (dd := firstn dl d).
+  assert (Wdd : wf dd) by (apply wf_firstn, W).
+  destruct (read_destination dd) as [[dst rr]| |] eqn:RD; cbn [rbind fst snd]; try discriminate.
+  rewrite slice_from_ok by lia. cbn [rbind]. intros H. apply Ok_pair_inj in H. destruct H as [<- <-].
+  destruct (read_destination_RoundTrip _ _ _ Wdd RD) as [db [KB Ed]].
+  assert (RK : read_keys_and_cert dd = Ok (dst, rr)).
+  { revert RD. unfold read_destination. destruct (read_keys_and_cert dd) as [[k0 r0]| |]; cbn [rbind fst]; try discriminate.
+    destruct (dest_types_ok k0); [|discriminate]. auto. }
+  destruct (kac_remainder _ _ _ RK) as [_ [c' RC']].
+  destruct (read_certificate_shape _ _ _ (wf_skipn 384 _ Wdd) RC') as [_ [Ec' [_ Er']]].
+  assert (Ldd : length dd = dl) by (unfold dd; rewrite firstn_length; lia).
+  assert (CL : cert_len_int c' = cert_len_int c).
+  { rewrite Ec', Ec. unfold cert_len_int. cbn [c_len]. f_equal.
+    unfold dd. rewrite skipn_firstn_comm. rewrite skipn_firstn_comm.
+    rewrite firstn_firstn. f_equal. subst cl. lia. }
+  assert (RR : rr = []).
+  { rewrite Er'. apply skipn_all2. rewrite skipn_length, Ldd, CL. subst cl. lia. }
+  rewrite RR in Ed, RD, RC'. clear Er'. rewrite app_nil_r in Ed. subst db.
+  exists dd. split; [symmetry; apply firstn_skipn|exact RD].
+Qed.
+
+(* C19: the destination reader used in front of a LeaseSet agrees with ReadDestination on the same
+   input: same remainder, a destination with the same serialisation and the same key types *)
+Theorem dfl_agrees_with_read_destination d dest rem : wf d -> read_destination_from_leaseset d = Ok (dest, rem) ->
+  exists dest', read_destination d = Ok (dest', rem) /\ kac_bytes dest' = kac_bytes dest /\
+    kc_signing_type (k_kc dest') = kc_signing_type (k_kc dest) /\ kc_crypto_type (k_kc dest') = kc_crypto_type (k_kc dest).
+Proof.
+  intros W H. destruct (read_dfl_exact d dest rem W H) as [db [Ed RD]].
+  assert (Wdb : wf db) by (rewrite Ed in W; apply wf_app in W; tauto).
+  destruct (read_destination_retail (db ++ []) dest [] rem ltac:(rewrite app_nil_r; exact Wdb) ltac:(rewrite app_nil_r; exact RD))
+    as [b [k' [KB [Ex [RD' [KB' [T2 T1]]]]]]].
+  rewrite !app_nil_r in Ex. subst b. exists k'. rewrite Ed. split; [exact RD'|]. split; [rewrite KB', KB; reflexivity|]. split; assumption.
+Qed.
+
 Lemma concat_length_uniform (n : nat) (ls : list bytes) : Forall (fun l => length l = n) ls ->
   length (concat ls) = (length ls * n)%nat.
 Proof. induction 1 as [|x t Hx Ht IH]; [reflexivity|]. cbn [concat length]. rewrite app_length, Hx, IH. lia. Qed.
@@ -188,4 +237,61 @@ Proof.
   replace (Z.of_nat (length sgb) <? ss) with false by lia.
   rewrite slice_to_ok by lia. rewrite firstn_all2 by lia. cbn [rbind].
   rewrite NS. reflexivity.
+Qed.
+
+(* ---- LeaseSet (v1) built from parts: accepted, whatever follows ---- *)
+Definition ls_sks (kco : option keycert) : Z := match kco with Some kc => kc_signing_pubkey_size kc | None => c_lease_set_LEASE_SET_SPK_SIZE end.
+Definition ls_ss (kco : option keycert) : Z := match kco with Some kc => kc_signature_size kc | None => c_lease_set_LEASE_SET_SIG_SIZE end.
+Definition ls_st (kco : option keycert) : Z := match kco with Some kc => kc_signing_type kc | None => c_signature_SIGNATURE_TYPE_DSA_SHA1 end.
+
+Theorem lease_set_built_accepted db dest kco ek skd (ls : list bytes) sgb sg y :
+  let rest := ek ++ skd ++ [N.of_nat (length ls)] ++ concat ls ++ sgb in
+  (387 <= length db)%nat ->
+  read_destination_from_leaseset (db ++ rest ++ y) = Ok (dest, rest ++ y) ->
+  length ek = 256%nat -> elg_pubkey_ok ek = true ->
+  dest_keycert_opt dest = Ok kco ->
+  0 <= ls_sks kco -> Z.of_nat (length skd) = ls_sks kco ->
+  match kco with
+  | Some kc => construct_signing_public_key kc skd
+  | None => if dsa_pubkey_ok skd then Ok skd else Err
+  end = Ok skd ->
+  (length ls <= 16)%nat -> Forall (fun l => length l = LEASE_SIZE) ls ->
+  0 <= ls_ss kco -> Z.of_nat (length sgb) = ls_ss kco ->
+  new_signature_from_bytes sgb (ls_st kco) = Ok sg ->
+  read_lease_set ((db ++ rest) ++ y) = Ok (mkLS dest ek skd (Z.of_nat (length ls)) ls sg) /\
+  lease_set_bytes (mkLS dest ek skd (Z.of_nat (length ls)) ls sg) =
+    (do dbb <- kac_bytes dest; Ok (dbb ++ ek ++ skd ++ [N.of_nat (length ls)] ++ concat ls ++ sig_bytes sg)).
+Proof.
+  intros rest L387 RD Lek EOK DK SKN Lskd SK L16 FL SSN Lsgb NS. split.
+  - rewrite <- app_assoc. unfold read_lease_set.
+    replace (length (db ++ rest ++ y) <? 387)%nat with false by (rewrite app_length; lia).
+    rewrite RD. cbn [rbind fst snd].
+    change c_lease_set_LEASE_SET_PUBKEY_SIZE with 256. change (Z.to_nat 256) with 256%nat.
+    unfold rest. rewrite <- !app_assoc.
+    replace (Z.of_nat (length (ek ++ skd ++ [N.of_nat (length ls)] ++ concat ls ++ sgb ++ y)) <? 256) with false by (rewrite app_length; lia).
+    rewrite (slice_to_prefix' ek _ 256) by (symmetry; exact Lek). cbn [rbind].
+    rewrite EOK. cbn [negb].
+    rewrite (slice_from_prefix' ek _ 256) by (symmetry; exact Lek). cbn [rbind].
+    rewrite DK. cbn [rbind]. fold (ls_sks kco).
+    replace (Z.of_nat (length (skd ++ [N.of_nat (length ls)] ++ concat ls ++ sgb ++ y)) <? ls_sks kco) with false by (rewrite app_length; lia).
+    rewrite (slice_to_prefix' skd _ (Z.to_nat (ls_sks kco))) by lia. cbn [rbind].
+    match goal with |- context [rbind ?e _] =>
+      lazymatch e with (match kco with Some _ => _ | None => _ end) => replace e with (Ok skd : res bytes) by (symmetry; exact SK) end end.
+    cbn [rbind].
+    rewrite (slice_from_prefix' skd _ (Z.to_nat (ls_sks kco))) by lia. cbn [rbind].
+    cbn [app]. rewrite length_cons_lt1, index0_cons. cbn [rbind].
+    replace (Z.of_N (N.of_nat (length ls)) >? 16) with false by lia.
+    rewrite slice_from1_cons. cbn [rbind].
+    assert (Lcat : length (concat ls) = (length ls * LEASE_SIZE)%nat) by (apply concat_length_uniform; exact FL).
+    replace (Z.of_nat (length (concat ls ++ sgb ++ y)) <? Z.of_N (N.of_nat (length ls)) * c_lease_LEASE_SIZE) with false
+      by (rewrite app_length, Lcat; change c_lease_LEASE_SIZE with 44; change LEASE_SIZE with 44%nat; lia).
+    rewrite Nat2N.id. pose proof (read_n_accept LEASE_SIZE ls (sgb ++ y) FL) as RA. unfold bytes in RA |- *. rewrite RA. cbn [rbind fst snd].
+    fold (ls_ss kco).
+    replace (Z.of_nat (length (sgb ++ y)) <? ls_ss kco) with false by (rewrite app_length; lia).
+    rewrite (slice_to_prefix' sgb y (Z.to_nat (ls_ss kco))) by lia. cbn [rbind].
+    fold (ls_st kco). rewrite NS. cbn [rbind]. f_equal. f_equal. lia.
+  - unfold lease_set_bytes. cbn [ls_dest ls_enc ls_spk ls_count ls_leases ls_sig].
+    destruct (kac_bytes dest) as [dbb| |]; cbn [rbind]; try reflexivity.
+    replace (Z.of_nat (length ls)) with (Z.of_N (N.of_nat (length ls))) by lia.
+    rewrite encode_count by lia. cbn [rbind]. reflexivity.
 Qed.
